@@ -74,18 +74,19 @@ theorem runCb_closeCbs (sc : Script) (ph : Phase) (k : CbKind) (key : CbKey) (i 
   simp only [hh, Bool.false_eq_true, if_false]
   cases k <;> simp [closeCbs] <;> (try (split <;> omega))
 
-/-- `close_cb_exactly_once` (per delivery step): `uv__finish_close` of a present non-udp handle is exactly
+/-- `close_cb_exactly_once` (per delivery step): `uv__finish_close` of a present handle without attached requests (not udp / stream) is exactly
     *one* close callback for that handle, invoked on a state from which the handle's record has already been
     deleted (flags list and data list), after CLOSED was set and the REF flag cleared. -/
 theorem finishClose_delivers_once (sc : Script) (id : Nat) (s : State) (h : Handle) (f : HFlags)
-    (hg : getH s id = some h) (hk : (h.kind == .udp) = false) (hf : getF s id = some f) (hh : s.halted = false) :
+    (hg : getH s id = some h) (hk : (h.kind == .udp) = false) (hk2 : (h.kind == .pipe || h.kind == .tcp) = false)
+    (hf : getF s id = some f) (hh : s.halted = false) :
     closeCbs id (finishClose sc id s).trace = closeCbs id s.trace + 1 ∧
     ∃ f', finishClose sc id s =
       runCb sc .closing .close (.c id) id (flagBits f') 0 0
         { s with c := ((s.c.apply id setClosed).apply id handleUnref).remove id,
                  handles := s.handles.filter (·.id != id) } := by
   unfold finishClose
-  simp only [hg, hk, Bool.false_eq_true, if_false]
+  simp only [hg, hk, hk2, Bool.false_eq_true, if_false]
   have h1 : ∃ g, getF (withKernel (withKernel s id setClosed) id handleUnref) id = some g := by
     simp only [getF, withKernel, Core.apply]
     have hf' : s.c.get id = some f := hf
@@ -140,5 +141,13 @@ example :
     ((runClosing (fun _ _ _ => []) s0).trace.reverse.filterMap (fun e => match e with
         | .cb _ k i a _ => some (k, i, a) | _ => none)) =
       [(CbKind.udpSend, 0, 0), (CbKind.udpSend, 1, -125), (CbKind.close, 2, 4)] := by decide
+
+/-- a pipe handle with a deferred connect error, closed before the loop delivered it: the connect callback gets
+    UV_ECANCELED (-125) in the closing phase, before the close callback; nothing in the pending phase -/
+example :
+    let s0 := ([Op.init .pipe, .connectBad 2, .close 2].foldl stepOp (initLoop 0 false []))
+    s0.pending = [] ∧
+    ((runClosing (fun _ _ _ => []) (runPending (fun _ _ _ => []) .pending s0)).trace.reverse.filterMap (fun e => match e with
+        | .cb _ k i a _ => some (k, i, a) | _ => none)) = [(CbKind.connect, 0, -125), (CbKind.close, 2, 4)] := by decide
 
 end UvModel.Props.C02
